@@ -1,6 +1,105 @@
-/-! Driver entry for property C19 (stub: not implemented yet). -/
-namespace HeartwoodModel.Driver.C19
+import HeartwoodModel.Model.Doc
+import HeartwoodModel.Model.JsonWire
+import HeartwoodModel.Driver.Util
+/-! Driver entry for C19.
 
-def run (_args : List String) : String := "unimplemented"
+Case: `<did table> <nfc table> <kind> <args…>`
+
+* did table: `idx:hex,idx:hex,…` or `-` — the graph of `showDid` (`Did::encode`) on the keys of the case;
+  `parseDid` (`Did::decode`) is its inverse and `none` on every other string.
+* nfc table: `hex>hex,…` or `-` — the graph of NFC on the string fragments of the case that are not
+  already normalised (every other fragment is a fixed point).
+* `json <tree>`: a JSON document (wire syntax of `Model/JsonWire.lean`) given to `Doc::from_blob` /
+  `Doc::deserialize`.
+* `raw <delegates idx,…> <threshold> <P | V<idx,…>> <payload tree>`: a `RawDoc` built through the Rust API
+  and given to `RawDoc::verified`.
+
+Output: `rej`, or `ok v=<version> t=<threshold> d=<delegates> vis=<pub|priv:allow> enc=<hex of Doc::encode | err>
+rt=<1 equal | 0 different | E decoding failed | x no encoding>`. -/
+namespace HeartwoodModel.Driver.C19
+open HeartwoodModel.Json HeartwoodModel.JsonWire HeartwoodModel.Doc HeartwoodModel.Driver.Util
+
+def parseDidTable (s : String) : Option (List (Nat × Bytes)) :=
+  if s == "-" then some [] else
+  (splitOn s ',').mapM fun e =>
+    match splitOn e ':' with
+    | [i, h] => do let i ← nat? i; let h ← hexBytes? h; some (i, h)
+    | _ => none
+
+def parseNfcTable (s : String) : Option (List (Bytes × Bytes)) :=
+  if s == "-" then some [] else
+  (splitOn s ',').mapM fun e =>
+    match splitOn e '>' with
+    | [a, b] => do let a ← hexBytes? a; let b ← hexBytes? b; some (a, b)
+    | _ => none
+
+def nfcOf (tbl : List (Bytes × Bytes)) (s : Bytes) : Bytes :=
+  match tbl.find? (fun e => e.1 == s) with
+  | some e => e.2
+  | none => s
+
+def showDidOf (tbl : List (Nat × Bytes)) (d : Did) : Bytes :=
+  match tbl.find? (fun e => e.1 == d) with
+  | some e => e.2
+  | none => []
+
+def parseDidOf (tbl : List (Nat × Bytes)) (s : Bytes) : Option Did :=
+  (tbl.find? (fun e => e.2 == s)).map (·.1)
+
+def showVis : Visibility → String
+  | .pub => "pub"
+  | .priv allow => "priv:" ++ showNats allow
+
+def showDoc (nfc : Bytes → Bytes) (sd : Did → Bytes) (pd : Bytes → Option Did) (d : Doc) : String :=
+  let enc := match d.encode nfc sd with
+    | some b => toHex b
+    | none => "err"
+  let rt := match d.roundtrip nfc sd pd with
+    | none => "x"
+    | some (.error _) => "E"
+    | some (.ok d') => if d'.beq d then "1" else "0"
+  s!"ok v={d.version} t={d.threshold} d={showNats d.delegates} vis={showVis d.visibility} enc={enc} rt={rt}"
+
+def showResult (nfc : Bytes → Bytes) (sd : Did → Bytes) (pd : Bytes → Option Did) : Except DocErr Doc → String
+  | .error _ => "rej"
+  | .ok d => showDoc nfc sd pd d
+
+/-- every delegate / allow index must be in the did table (otherwise `showDid` is not defined on it) -/
+def covered (tbl : List (Nat × Bytes)) (ds : List Nat) : Bool := ds.all fun d => tbl.any (·.1 == d)
+
+def run (args : List String) : String :=
+  match args with
+  | dt :: nt :: kind :: rest =>
+    match parseDidTable dt, parseNfcTable nt with
+    | some dtbl, some ntbl =>
+      let nfc := nfcOf ntbl
+      let sd := showDidOf dtbl
+      let pd := parseDidOf dtbl
+      match kind, rest with
+      | "json", [tree] =>
+        match parseTree dtbl tree with
+        | .ok j _ => showResult nfc sd pd (Doc.decode pd j)
+        | .syntax => "bad-op"
+        | .fuel => "fuel"
+      | "raw", [dels, thr, vis, tree] =>
+        match nats? dels, nat? thr, parseTree dtbl tree with
+        | some dels, some thr, .ok j _ =>
+          let vis? : Option Visibility :=
+            if vis == "P" then some .pub
+            else if vis.startsWith "V" then (nats? (vis.drop 1).toString).map (fun a => .priv (setOfList a))
+            else none
+          match vis?, parsePayload j with
+          | some v, some payload =>
+            let allow := match v with | .pub => [] | .priv a => a
+            if covered dtbl dels && covered dtbl allow then
+              showResult nfc sd pd
+                (RawDoc.verified { version := IDENTITY_VERSION, payload, delegates := dels, threshold := thr, visibility := v })
+            else "bad-op"
+          | _, _ => "bad-op"
+        | _, _, .fuel => "fuel"
+        | _, _, _ => "bad-op"
+      | _, _ => "bad-op"
+    | _, _ => "bad-op"
+  | _ => "bad-op"
 
 end HeartwoodModel.Driver.C19
